@@ -488,6 +488,67 @@ func ruleDedup(w *World, r *Report) {
 	}
 }
 
+// groupBuilder: the function that unwraps a parenthesised group and the query
+// type it wraps the content in: the one-input query type, outside the axis
+// dispatch's types (skip), that the node dispatcher allocates itself — or that a
+// builder helper called directly by the dispatcher allocates, when that helper
+// allocates no other query type and calls the dispatcher back for the content.
+func (w *World) groupBuilder(skip map[*QType]bool) (*ssa.Function, *QType) {
+	br, _ := w.roles()
+	if br == nil || br.Dispatch == nil {
+		return nil, nil
+	}
+	allocs := func(fn *ssa.Function) (all map[*QType]bool, one *QType) {
+		all = map[*QType]bool{}
+		eachInstr(fn, false, func(_ *ssa.Function, in ssa.Instruction) {
+			if a, ok := in.(*ssa.Alloc); ok {
+				if n, ok := a.Type().(*types.Pointer).Elem().(*types.Named); ok {
+					if qt := w.census.ByType[n]; qt != nil {
+						all[qt] = true
+						if skip[qt] {
+							return
+						}
+						nq := 0
+						for _, f := range qt.Fields {
+							if f.IsQuery {
+								nq++
+							}
+						}
+						if nq == 1 {
+							one = qt
+						}
+					}
+				}
+			}
+		})
+		return
+	}
+	if _, one := allocs(br.Dispatch); one != nil {
+		return br.Dispatch, one
+	}
+	var host *ssa.Function
+	var group *QType
+	for _, h := range w.pkgCallees(br.Dispatch) {
+		if h == br.Dispatch || h.Signature.Recv() == nil || h.Parent() != nil {
+			continue
+		}
+		callsBack := false
+		for _, c := range w.pkgCallees(h) {
+			if c == br.Dispatch {
+				callsBack = true
+			}
+		}
+		all, one := allocs(h)
+		if callsBack && one != nil && len(all) == 1 {
+			if host != nil {
+				return nil, nil // two candidates: not understood
+			}
+			host, group = h, one
+		}
+	}
+	return host, group
+}
+
 // ---------- C03-MERGE ----------
 
 func ruleMerge(w *World, r *Report) {
@@ -505,28 +566,9 @@ func ruleMerge(w *World, r *Report) {
 			steps = append(steps, e.Type)
 		}
 	}
-	// the parenthesised-path type: the query type the node dispatcher itself allocates
-	var group *QType
-	br, _ := w.roles()
-	if br != nil {
-		eachInstr(br.Dispatch, false, func(_ *ssa.Function, in ssa.Instruction) {
-			if a, ok := in.(*ssa.Alloc); ok {
-				if n, ok := a.Type().(*types.Pointer).Elem().(*types.Named); ok {
-					if qt := w.census.ByType[n]; qt != nil && !seen[qt] {
-						nq := 0
-						for _, f := range qt.Fields {
-							if f.IsQuery {
-								nq++
-							}
-						}
-						if nq == 1 {
-							group = qt
-						}
-					}
-				}
-			}
-		})
-	}
+	// the parenthesised-path type: the query type the node dispatcher itself
+	// allocates (or a helper it hands the group node to)
+	_, group := w.groupBuilder(seen)
 	all := append([]*QType{}, steps...)
 	if group != nil {
 		all = append(all, group)
@@ -804,43 +846,87 @@ func ruleRepl(w *World, r *Report) {
 		r.FuncsAnalysed[fnName(cl)] = true
 		pos := w.pos(cl.Pos())
 		okInit, okDec, okCond, okFmt := false, false, false, false
-		for _, comp := range cfgSCCs(cl) {
-			for _, b := range comp {
-				for _, in := range b.Instrs {
-					if phi, ok := in.(*ssa.Phi); ok && isIntType(phi.Type()) {
-						for _, e := range phi.Edges {
-							if c, ok := e.(*ssa.Call); ok && c.Call.StaticCallee() != nil && c.Call.StaticCallee().Name() == "NumSubexp" {
-								okInit = true
-							}
-							if isStepOf(e, phi, token.SUB) {
-								okDec = true
-							}
-						}
-						for _, u := range uses(phi) {
-							if bo, ok := u.(*ssa.BinOp); ok && bo.Op == token.GTR {
-								if k, ok := constInt(bo.Y); ok && k == 0 {
-									okCond = true
-								}
-							}
+		isNumSubexp := func(e ssa.Value) bool {
+			c, ok := e.(*ssa.Call)
+			return ok && c.Call.StaticCallee() != nil && c.Call.StaticCallee().String() == "(*regexp.Regexp).NumSubexp"
+		}
+		// the loop is looked for in the implementation and in the plain helpers it calls
+		hosts := []*ssa.Function{cl}
+		for _, h := range w.pkgCallees(cl) {
+			if h.Parent() == nil && h != cl && len(h.Blocks) > 0 {
+				hosts = append(hosts, h)
+			}
+		}
+		for _, host := range hosts {
+			for _, comp := range cfgSCCs(host) {
+				hasRewrite := false
+				for _, b := range comp {
+					for _, in := range b.Instrs {
+						if c, ok := in.(*ssa.Call); ok && c.Call.StaticCallee() != nil && c.Call.StaticCallee().String() == "strings.ReplaceAll" {
+							hasRewrite = true
 						}
 					}
-					// the replacement performed for group n: with n = 12 the searched
-					// text must evaluate to "$12" and its replacement to "${12}",
-					// however the two strings are put together
-					if c, ok := in.(*ssa.Call); ok && c.Call.StaticCallee() != nil && c.Call.StaticCallee().String() == "strings.ReplaceAll" && len(c.Call.Args) == 3 {
-						var loopPhi *ssa.Phi
-						for _, lb := range comp {
-							for _, li := range lb.Instrs {
-								if ph, ok := li.(*ssa.Phi); ok && isIntType(ph.Type()) {
-									loopPhi = ph
+				}
+				if !hasRewrite {
+					continue
+				}
+				for _, b := range comp {
+					for _, in := range b.Instrs {
+						if phi, ok := in.(*ssa.Phi); ok && isIntType(phi.Type()) {
+							for _, e := range phi.Edges {
+								if isNumSubexp(e) {
+									okInit = true
+								}
+								// the count handed to a helper: what the implementation passes
+								if p, ok := e.(*ssa.Parameter); ok && host != cl {
+									for i, hp := range host.Params {
+										if hp != p {
+											continue
+										}
+										n, all := 0, true
+										eachInstr(cl, false, func(_ *ssa.Function, in2 ssa.Instruction) {
+											if c2, ok := in2.(*ssa.Call); ok && c2.Call.StaticCallee() == host && i < len(c2.Call.Args) {
+												n++
+												if !isNumSubexp(c2.Call.Args[i]) {
+													all = false
+												}
+											}
+										})
+										if n > 0 && all {
+											okInit = true
+										}
+									}
+								}
+								if isStepOf(e, phi, token.SUB) {
+									okDec = true
+								}
+							}
+							for _, u := range uses(phi) {
+								if bo, ok := u.(*ssa.BinOp); ok && bo.Op == token.GTR {
+									if k, ok := constInt(bo.Y); ok && k == 0 {
+										okCond = true
+									}
 								}
 							}
 						}
-						if loopPhi != nil {
-							from, ok1 := evalStringWith(c.Call.Args[1], loopPhi, 12, 0)
-							to, ok2 := evalStringWith(c.Call.Args[2], loopPhi, 12, 0)
-							if ok1 && ok2 && from == "$12" && to == "${12}" {
-								okFmt = true
+						// the replacement performed for group n: with n = 12 the searched
+						// text must evaluate to "$12" and its replacement to "${12}",
+						// however the two strings are put together
+						if c, ok := in.(*ssa.Call); ok && c.Call.StaticCallee() != nil && c.Call.StaticCallee().String() == "strings.ReplaceAll" && len(c.Call.Args) == 3 {
+							var loopPhi *ssa.Phi
+							for _, lb := range comp {
+								for _, li := range lb.Instrs {
+									if ph, ok := li.(*ssa.Phi); ok && isIntType(ph.Type()) {
+										loopPhi = ph
+									}
+								}
+							}
+							if loopPhi != nil {
+								from, ok1 := evalStringWith(c.Call.Args[1], loopPhi, 12, 0)
+								to, ok2 := evalStringWith(c.Call.Args[2], loopPhi, 12, 0)
+								if ok1 && ok2 && from == "$12" && to == "${12}" {
+									okFmt = true
+								}
 							}
 						}
 					}
@@ -1085,43 +1171,63 @@ func ruleASmart(w *World, r *Report) {
 			continue
 		}
 		fp := d.Params[2]
-		eachInstr(d, false, func(_ *ssa.Function, in ssa.Instruction) {
-			c, ok := in.(*ssa.Call)
-			if !ok || c.Call.StaticCallee() != d || len(c.Call.Args) < 3 {
-				return
-			}
-			ng++
-			dep := false
-			seen := map[ssa.Value]bool{}
-			var walk func(v ssa.Value, k int)
-			walk = func(v ssa.Value, k int) {
-				if v == nil || seen[v] || k > 12 {
+		hosts := []*ssa.Function{d}
+		if h, _ := w.groupBuilder(map[*QType]bool{}); h != nil && h != d {
+			hosts = append(hosts, h)
+		}
+		for _, host := range hosts {
+			host := host
+			eachInstr(host, false, func(_ *ssa.Function, in ssa.Instruction) {
+				c, ok := in.(*ssa.Call)
+				if !ok || c.Call.StaticCallee() != d || len(c.Call.Args) < 3 {
 					return
 				}
-				seen[v] = true
-				if v == ssa.Value(fp) {
-					dep = true
-				}
-				switch x := v.(type) {
-				case *ssa.BinOp:
-					walk(x.X, k+1)
-					walk(x.Y, k+1)
-				case *ssa.Phi:
-					for _, e := range x.Edges {
-						walk(e, k+1)
+				ng++
+				dep := false
+				seen := map[ssa.Value]bool{}
+				var walk func(v ssa.Value, k int)
+				walk = func(v ssa.Value, k int) {
+					if v == nil || seen[v] || k > 12 {
+						return
 					}
-				case *ssa.UnOp:
-					walk(x.X, k+1)
+					seen[v] = true
+					if v == ssa.Value(fp) {
+						dep = true
+					}
+					if p, ok := v.(*ssa.Parameter); ok && host != d && types.Identical(p.Type(), fp.Type()) {
+						// a flags parameter of the helper: what the dispatcher hands it
+						for i, hp := range host.Params {
+							if hp != p {
+								continue
+							}
+							eachInstr(d, false, func(_ *ssa.Function, in2 ssa.Instruction) {
+								if c2, ok := in2.(*ssa.Call); ok && c2.Call.StaticCallee() == host && i < len(c2.Call.Args) {
+									walk(c2.Call.Args[i], k+1)
+								}
+							})
+						}
+					}
+					switch x := v.(type) {
+					case *ssa.BinOp:
+						walk(x.X, k+1)
+						walk(x.Y, k+1)
+					case *ssa.Phi:
+						for _, e := range x.Edges {
+							walk(e, k+1)
+						}
+					case *ssa.UnOp:
+						walk(x.X, k+1)
+					}
 				}
-			}
-			walk(c.Call.Args[2], 0)
-			key := fmt.Sprintf("group-flags%d", ng)
-			if dep {
-				r.bad("A-SMART", key, w.instrPos(c), "the content of a parenthesised group is built with the flags of the expression around it: (//b)[n] is then built as a filtered step (per-parent // expansion) and [n] no longer counts in document order")
-			} else {
-				r.ok("A-SMART", key, w.instrPos(c), "a parenthesised group is built with fresh flags")
-			}
-		})
+				walk(c.Call.Args[2], 0)
+				key := fmt.Sprintf("group-flags%d", ng)
+				if dep {
+					r.bad("A-SMART", key, w.instrPos(c), "the content of a parenthesised group is built with the flags of the expression around it: (//b)[n] is then built as a filtered step (per-parent // expansion) and [n] no longer counts in document order")
+				} else {
+					r.ok("A-SMART", key, w.instrPos(c), "a parenthesised group is built with fresh flags")
+				}
+			})
+		}
 	}
 	if ng == 0 {
 		r.bad("A-SMART", "group-sites", "", "no self-call of the node dispatcher (group unwrapping) found")
